@@ -98,6 +98,8 @@ def check(ctx):
     from .C05 import check_tiles
     check_tiles(ctx, ('validation.utils', 'validation.validate_h5ad'),
                 floor=8)
+    from .C05 import sweep_generic_rules
+    sweep_generic_rules(ctx, ('validation.',))
 
 
 def check_input_effects(ctx, pa, outer, inner):
